@@ -29,6 +29,11 @@ pub struct EyeCase {
     pub delay: Option<u64>,
     pub timeout: Option<u64>,
     pub conc: Option<usize>,
+    /// the set is used a second time: it first finishes once while empty (no-progress), virtual time
+    /// passes, then the attempts are pushed and it finishes again - a fresh use as far as the
+    /// statements go (full deadline, same pacing)
+    #[serde(default)]
+    pub reuse: Option<u16>,
 }
 
 #[derive(Debug, PartialEq, Clone)]
@@ -206,13 +211,17 @@ struct Obs {
 type AttFut = Pin<Box<dyn Future<Output = Result<usize, usize>> + Send>>;
 
 pub async fn run_impl(c: &EyeCase) -> Observed {
-    let t0 = Instant::now();
     let obs = Arc::new(Mutex::new(Obs { starts: vec![None; c.atts.len()], seq: 0, twice: false }));
     let mut set: EyeballSet<AttFut, usize, usize> = EyeballSet::new(
         c.delay.map(Duration::from_millis),
         c.timeout.map(Duration::from_millis),
         c.conc,
     );
+    if let Some(pause) = c.reuse {
+        let _ = set.finish().await;
+        tokio::time::sleep(Duration::from_millis(pause as u64)).await;
+    }
+    let t0 = Instant::now();
     for (i, (o, lat)) in c.atts.iter().cloned().enumerate() {
         let obs = obs.clone();
         set.push(Box::pin(async move {
@@ -487,7 +496,7 @@ pub fn exhaustive(max_n: usize, lats: &[u64]) -> Vec<EyeCase> {
             for d in DELAYS {
                 for t in TIMEOUTS {
                     for conc in std::iter::once(None).chain((0..=n).map(Some)) {
-                        out.push(EyeCase { atts: atts.clone(), delay: d, timeout: t, conc });
+                        out.push(EyeCase { atts: atts.clone(), delay: d, timeout: t, conc, reuse: None });
                     }
                 }
             }
@@ -533,6 +542,6 @@ pub fn random_strategy(max_n: usize, offgrid: bool) -> impl proptest::strategy::
     (proptest::collection::vec(att, 0..=max_n), delay, timeout, prop_oneof![1 => Just(None), 3 => (0usize..=max_n).prop_map(Some)])
         .prop_map(|(atts, delay, timeout, conc)| {
             let n = atts.len();
-            EyeCase { atts, delay, timeout, conc: conc.map(|c| c.min(n)) }
+            EyeCase { atts, delay, timeout, conc: conc.map(|c| c.min(n)), reuse: None }
         })
 }
